@@ -187,12 +187,19 @@ class ScriptGen:
                 # forget the routine's parameters (Context.exit_matrix clears
                 # the locals); C03's business, avoided here
                 choices.append('matrix_block')
+            if self.mat:
+                # the colour every cell gets that a later matrix command
+                # does not mention
+                choices.append('default')
         if 'wait' in self.fx:
             choices.append('wait')
         k = r.choice(choices)
         self.n += 1
         if k == 'wait':
             return 'wait'
+        if k == 'default':
+            tag, regs = self._regs('color')
+            return '{} set default'.format(regs)
         if k in ('set', 'on', 'off'):
             tag, regs = self._regs('power' if k != 'set' else 'color')
             tgt, tk = self._target()
